@@ -144,6 +144,12 @@ def _(b):
     b['eqpt'].append(dict(a='C', z='F', east=dict(amp='fused')))
 
 
+@mut('eqpt_on_fused_site')
+def _(b):
+    # an Eqpt row whose Node A is a FUSED site (the shipped juniperTopologyExampleV2J.xls has such rows): the site stays fused
+    b['eqpt'].append(dict(a='F', z='C', east=dict(amp='std_low_gain'), west=dict(amp='std_low_gain')))
+
+
 @mut('eqpt_no_type')
 def _(b):
     b['eqpt'].append(dict(a='B', z='F', east=dict(gain=17.25, att_in=1.0)))
@@ -270,6 +276,84 @@ def sheets(book):
             rows.append([s.get(k) for k in SERVICE_KEYS])
         out['Service'] = rows
     return out
+
+
+SHIPPED = ['gnpy/example-data/meshTopologyExampleV2.xls', 'gnpy/example-data/CORONET_Global_Topology.xls',
+           'gnpy/example-data/juniperTopologyExampleV2J.xls', 'tests/data/testTopology.xls', 'tests/data/testTopologyconvert.xls',
+           'tests/data/perdegreemeshTopologyExampleV2.xls', 'tests/data/testService.xls']
+
+
+def book_from_xls(path):
+    """the workbook description of a real .xls file, read with xlrd directly (not through gnpy's sheet readers): header rows
+    are found by their first cell, columns are taken by position as documented in docs/excel.rst"""
+    import xlrd
+    wb = xlrd.open_workbook(path)
+
+    def rows_of(name, first):
+        if name not in wb.sheet_names():
+            return []
+        sh = wb.sheet_by_name(name)
+        hdr = next((r for r in range(sh.nrows) if str(sh.cell_value(r, 0)).strip() == first), None)
+        if hdr is None:
+            return []
+        out = []
+        for r in range(hdr + 1, sh.nrows):
+            vals = [None if (c.ctype in (xlrd.XL_CELL_EMPTY, xlrd.XL_CELL_BLANK) or c.value == '') else c.value for c in sh.row(r)]
+            if all(v is None for v in vals):
+                continue
+            out.append(vals)
+        return out
+
+    def cell(vals, i):
+        return vals[i] if (i is not None and i < len(vals)) else None
+
+    def header(name, first):
+        sh = wb.sheet_by_name(name)
+        hdr = next(r for r in range(sh.nrows) if str(sh.cell_value(r, 0)).strip() == first)
+        return [str(c.value).strip() for c in sh.row(hdr)]
+
+    def side_cols(hdr, names, keys):
+        """column index of each key for the east (first occurrence) and the west (second occurrence) block"""
+        out = {'east': {}, 'west': {}}
+        for nm, k in zip(names, keys):
+            pos = [i for i, h in enumerate(hdr) if h == nm]
+            out['east'][k] = pos[0] if pos else None
+            out['west'][k] = pos[1] if len(pos) > 1 else None
+        return out
+    book = {'nodes': [], 'links': [], 'eqpt': [], 'roadms': [], 'service': []}
+    rows = rows_of('Nodes', 'City')
+    if rows:
+        hdr = header('Nodes', 'City')
+        col = {k: (hdr.index(nm) if nm in hdr else None) for nm, k in zip(
+            NODE_COLS, ['city', 'state', 'country', 'region', 'lat', 'lng', 'type', 'booster', 'preamp'])}
+        for v in rows:
+            book['nodes'].append({k: cell(v, i) for k, i in col.items() if cell(v, i) is not None})
+    rows = rows_of('Links', 'Node A')
+    if rows:
+        cols = side_cols(header('Links', 'Node A'), LINK_SIDE, LINK_KEYS)
+        for v in rows:
+            lk = dict(a=cell(v, 0), z=cell(v, 1))
+            for sidename in ('east', 'west'):
+                side_ = {k: cell(v, i) for k, i in cols[sidename].items() if cell(v, i) is not None}
+                if side_:
+                    lk[sidename] = side_
+            book['links'].append(lk)
+    rows = rows_of('Eqpt', 'Node A')
+    if rows:
+        cols = side_cols(header('Eqpt', 'Node A'), EQPT_SIDE, EQPT_KEYS)
+        for v in rows:
+            e = dict(a=cell(v, 0), z=cell(v, 1))
+            for sidename in ('east', 'west'):
+                side_ = {k: cell(v, i) for k, i in cols[sidename].items() if cell(v, i) is not None}
+                if side_:
+                    e[sidename] = side_
+            book['eqpt'].append(e)
+    for v in rows_of('Roadms', 'Node A'):
+        r = dict(a=cell(v, 0), z=cell(v, 1), target=cell(v, 2), variety=cell(v, 3), from_degrees=cell(v, 4), imp=cell(v, 5))
+        book['roadms'].append({k: x for k, x in r.items() if x is not None})
+    for v in rows_of('Service', 'route id'):
+        book['service'].append({k: cell(v, i) for i, k in enumerate(SERVICE_KEYS) if cell(v, i) is not None})
+    return book
 
 
 def write_xlsx(book, path):
@@ -456,6 +540,10 @@ def judge(book, j, viol, where, tags):
                 v('line-element-degree', f'{u}: in {g.in_degree(u) if u in g else 0} out {g.out_degree(u) if u in g else 0}')
     # Eqpt rows: settings land on the amplifier of site a facing neighbour z
     for e in book['eqpt']:
+        if types.get(e['a']) == 'FUSED':
+            # a FUSED site has no amplifier for the row to describe: the site's two fused elements are all it gets (judged above)
+            tags['eqpt-row-on-fused-site'] = 1
+            continue
         for d in ('east', 'west'):
             vals = e.get(d)
             if not vals:
@@ -622,6 +710,8 @@ def run_case(case):
     from gnpy.tools import convert, service_sheet
     viol = []
     tags = {}
+    if case.get('kind') == 'shipped':
+        return run_shipped(case)
     book = base_book(case.get('alt', False))
     for m in case.get('mut', []):
         MUT[m](book)
@@ -710,6 +800,31 @@ def run_case(case):
             'tags': tags, 'outcomes': sorted(tags), 'sample': case}
 
 
+def run_shipped(case):
+    """a workbook shipped with the repository, converted from the real .xls file by the real xlrd code path, judged with the
+    same reference model on a description read independently with xlrd"""
+    from pathlib import Path
+    from gnpy.tools import convert
+    viol, tags = [], {}
+    path = os.path.join(engine.REPO, case['file'])
+    where = f'shipped workbook {case["file"]}'
+    book = book_from_xls(path)
+    if not book['nodes'] or not book['links']:
+        return {'status': 'unjudged', 'unjudged': 1, 'tags': {'shipped-without-topology': 1}, 'sample': case, 'transitions': 0}
+    try:
+        j = convert.xls_to_json_data(Path(path))
+    except Exception as exc:  # noqa
+        return {'violations': [dict(fingerprint=f'shipped-workbook-raised:{type(exc).__name__}', what=f'{where}: {str(exc)[:200]}',
+                                    case=case)], 'transitions': 1}
+    judge(book, j, viol, where, tags)
+    tags['shipped-xls'] = 1
+    tags['shipped-sites'] = len(book['nodes'])
+    for x in viol:
+        x.setdefault('case', case)
+    return {'violations': viol[:8], 'transitions': 1, 'traces': 0 if viol else 1, 'nontrivial': True, 'tags': tags,
+            'outcomes': sorted(k for k in tags if not k.startswith('shipped')), 'sample': case}
+
+
 INCOMPATIBLE = [('blank_type', 'unknown_type'), ('ila_degree3', 'fused_degree3'), ('eqpt_ila', 'eqpt_ila_towards_first'),
                 ('link_reversed_order', 'eqpt_ila'), ('link_reversed_order', 'eqpt_roadm_both'), ('west_partial', 'link_reversed_order'),
                 ('east_connectors_pmd', 'link_reversed_order'), ('roadm_rows', 'link_reversed_order')]
@@ -738,10 +853,13 @@ def main(rep, tier, seed):
         cases.append({'mut': [], 'alt': True, 'services': combo})
     for e in SERVICE_ERRORS:
         cases.append({'mut': [], 'services': ['plain', e]})
+    for f in SHIPPED:
+        if os.path.exists(os.path.join(engine.REPO, f)):
+            cases.append({'kind': 'shipped', 'file': f})
     results, stats = engine.run_pool('checks.c20', cases, horizon=300)
     rep.absorb(results)
     rep.cov['bound'] = (f'all combinations of <= {d} of {len(MUT)} workbook mutators on a 5-site base workbook (ROADM, ILA, FUSED sites); '
-                        f'{len(ERRORS)} error workbooks x 2 contexts; service sheets with every 1-3 (and {"a fifth of the" if tier == "quick" else "every"} 4-) row '
+                        f'{len(ERRORS)} error workbooks x 2 contexts; the topology sheets of the .xls workbooks shipped with the repository through the real xlrd path; service sheets with every 1-3 (and {"a fifth of the" if tier == "quick" else "every"} 4-) row '
                         f'subsets of {len(SERVICE_ROWS)} row kinds and {len(SERVICE_ERRORS)} invalid rows')
     rep.cov['space_size'] = len(cases)
     rep.cov['exhaustive'] = not stats['budget_hit'] and len(results) == len(cases)
@@ -751,8 +869,12 @@ def main(rep, tier, seed):
                        'amplifier facing the named neighbour, per-degree targets, restrictions), error workbooks raise a topology '
                        'error, the result loads and auto-designs, service rows become requests with converted units, route, '
                        'strictness and one synchronisation entry per "disjoint from". transitions = conversions + designs.')
-    rep.assumptions += ['the value of a blank Con_in/Con_out/PMD cell is not judged (docs and code disagree; the property speaks of the '
-                        'sheet\'s values)', 'the xlrd parser itself is not exercised on generated inputs (no .xls writer offline)']
+    rep.require(rep.tags.get('shipped-xls', 0) >= 3, 'the shipped .xls workbooks were not converted through the real xlrd path')
+    rep.assumptions += ['the Service sheets of the shipped workbooks are not judged (their cells use conventions - numeric ids, '
+                        'element names in route lists - that the reference model of the generated sheets does not cover)',
+                        'the value of a blank Con_in/Con_out/PMD cell is not judged (docs and code disagree; the property speaks of the '
+                        'sheet\'s values)', 'the xlrd parser is exercised on the workbooks shipped with the repository only (no .xls writer offline): each is read '
+                        'a second time, independently, with xlrd to build the description the reference model judges']
     for k in ('two-sided-link', 'eqpt-rows', 'service-route', 'service-sync', 'service-error'):
         rep.require(rep.tags.get(k, 0) >= 1, f'{k} never exercised')
     rep.require(sum(1 for k in rep.tags if k.startswith('error:')) >= len(ERRORS) - 1, 'documented errors not all raised')
